@@ -40,6 +40,7 @@ type svsMsg struct {
 }
 
 func TestSvsGen(t *testing.T) {
+	defer watchDriver("TestSvsGen")()
 	log.SetLevel(log.FatalLevel)
 	w := newTrace("svs.ndjson")
 	defer w.Close()
